@@ -415,6 +415,9 @@ impl<'a> Mon<'a> {
 			Ok(accepted) => {
 				self.rep.count(&format!("{}:{}", if accepted { "accepted" } else { "rejected" }, name));
 				self.rep.distinct(&(e, class.to_string(), accepted, std::cmp::min(input.len() / 64, 40)));
+				if self.rep.samples.len() < 6 && self.rep.evaluations % 1013 == 7 {
+					self.rep.sample(json!({"entry": name, "class": class, "outcome": if accepted { "accepted" } else { "rejected" }, "input_len": input.len(), "input": trunc(&String::from_utf8_lossy(input), 240)}));
+				}
 				let allow = (64u64 << 20) + 64 * input.len() as u64;
 				if peak > allow {
 					self.rep.violation(
